@@ -34,6 +34,7 @@ type Contract struct {
 	ExternHdr  string // full Go header for extern contracts
 	Requires   []*Clause
 	Givens     []*Clause // ghost hypotheses: assumed in the body, antecedent of ensures at call sites
+	Assumes    []*Clause // assume[COUNTER:label]: assumed right after every call the ghost counter watches (listed as an assumption)
 	Ensures    []*Clause
 	Invariants []*Clause
 	InvVars    map[int]string // loop ordinal -> "a T, b U"
@@ -112,7 +113,7 @@ func (cf *ContractFile) expand(s string) string {
 // expandAll applies macros to every clause of the file.
 func (cf *ContractFile) expandAll() {
 	for _, c := range cf.Contracts {
-		for _, l := range [][]*Clause{c.Requires, c.Givens, c.Ensures, c.Invariants} {
+		for _, l := range [][]*Clause{c.Requires, c.Givens, c.Assumes, c.Ensures, c.Invariants} {
 			for _, cl := range l {
 				cl.Text = cf.expand(cl.Text)
 			}
@@ -239,6 +240,15 @@ func parseContractFile(path string) (*ContractFile, error) {
 			case "given":
 				c := &Clause{Kind: word, Label: label, Text: rest, Line: ln, File: path}
 				cur.Givens = append(cur.Givens, c)
+				lastClause = c
+			case "assume":
+				// assume[COUNTER:label] expr - a stated assumption about an uncontracted (library) callee: expr, over the
+				// function's parameters, holds in the state right after every call the ghost counter COUNTER watches
+				if !strings.Contains(label, ":") {
+					return nil, fmt.Errorf("%s:%d: assume[COUNTER:label] expr", path, ln)
+				}
+				c := &Clause{Kind: word, Label: label, Text: rest, Line: ln, File: path}
+				cur.Assumes = append(cur.Assumes, c)
 				lastClause = c
 			case "ensures":
 				c := &Clause{Kind: word, Label: label, Text: rest, Line: ln, File: path}
@@ -523,7 +533,7 @@ func rewriteSpec(s string) (string, error) {
 	return out, nil
 }
 
-var callsRe = regexp.MustCompile(`(^|[^\w.])(calls|lastargn|lastarg|lastresn|lastres|nthres|same|raw|fst3|snd3|thd3|fst|snd|le64|haskey)\(`)
+var callsRe = regexp.MustCompile(`(^|[^\w.])(calls|lastargn|lastarg|lastresn|lastres|nthres|same|raw|fst3|snd3|thd3|fst|snd|le64|haskey|allocated|base)\(`)
 var istypeRe = regexp.MustCompile(`(^|[^\w.])(istype|ptr|resval|argval)\[`)
 var oldRe = regexp.MustCompile(`(^|[^\w.])old\(`)
 var freshRe = regexp.MustCompile(`(^|[^\w.])fresh\(`)
